@@ -46,10 +46,10 @@ def copy_master(master, dst):
 
 STORE_DIRS = {
     "stage-transfer": ["cache"], "index-save": ["cache"], "index-save-sparse": ["cache"], "store-to-store": ["dest"], "store-to-store-expanded": ["dest"], "upload-staging": ["cache"],
-    "push-remote": ["dest"], "push-expanded": ["dest"], "add-files": ["cache"], "store-to-store-index": ["dest"], "store-to-store-index-jobs": ["dest"], "store-to-store-index-wide": ["dest"], "index-save-hardlink": ["cache"],
+    "push-remote": ["dest"], "push-expanded": ["dest"], "add-files": ["cache"], "store-to-store-index": ["dest"], "store-to-store-index-jobs": ["dest"], "store-to-store-index-wide": ["dest"], "store-to-store-expanded-wide": ["dest"], "index-save-hardlink": ["cache"],
 }
-NEEDS_SRC = {"store-to-store", "store-to-store-index", "store-to-store-index-jobs", "store-to-store-index-wide", "store-to-store-expanded", "push-remote", "push-expanded"}
-HAS_STATE = {"store-to-store-index", "store-to-store-index-jobs", "store-to-store-index-wide", "index-save-hardlink", "stage-transfer", "index-save", "index-save-sparse", "store-to-store", "store-to-store-expanded", "upload-staging", "add-files"}
+NEEDS_SRC = {"store-to-store", "store-to-store-index", "store-to-store-index-jobs", "store-to-store-index-wide", "store-to-store-expanded-wide", "store-to-store-expanded", "push-remote", "push-expanded"}
+HAS_STATE = {"store-to-store-index", "store-to-store-index-jobs", "store-to-store-index-wide", "store-to-store-expanded-wide", "index-save-hardlink", "stage-transfer", "index-save", "index-save-sparse", "store-to-store", "store-to-store-expanded", "upload-staging", "add-files"}
 
 
 def make_master(ctx, rng, scenario, d):
@@ -64,7 +64,7 @@ def make_master(ctx, rng, scenario, d):
     if scenario.endswith("-wide"):
         # more objects than any round / batch size a transfer may use
         tag = rng.getrandbits(32)
-        for i in range(1003):
+        for i in range(75 if scenario == "store-to-store-expanded-wide" else 1003):
             files[("wide", f"f{i:04d}")] = b"w %d %d" % (tag, i)
     if scenario in NEEDS_SRC:
         ws = os.path.join(d, "ws-tmp")
@@ -195,6 +195,8 @@ def crash_rounds(ctx, scenario, rng, case, every, on_kill=None, check_rerun=True
         # thousands of events: the ones that write a directory object (and their neighbours), plus a spread of others
         dir_events = {i for i, (_k, tgt, _s) in enumerate(events, 1) if tgt.endswith(DIR_SUFFIX)}
         kills = {j for i in dir_events for j in (i - 1, i, i + 1, i + 2) if 1 <= j <= N} | set(range(1, N + 1, max(1, N // 10)))
+        if scenario == "store-to-store-expanded-wide":
+            kills |= set(range(max(1, N - 120), N + 1))  # the tail: most files have arrived, the directory object has not
     plan = [(n, partial) for n in sorted(kills) for partial in (False, True)]
     # ... and, at the events that create or drop something under a final object name, an interruption by exception (Ctrl-C) as well
     exc_points = [n for n in sorted(kills & interesting_kills(events)) if events[n - 1][0] in ("open-w", "remove")]
